@@ -300,77 +300,81 @@ func TestC15Recovery(t *testing.T) {
 	type probeRes struct {
 		op, status string
 	}
-	run := func(at int) (nOps int, bad string) {
+	// The stage directory is prepared before the receiver starts: serverApp.init finds it, creates
+	// the source's stage and starts `go stager.Recover()` itself (nothing is wired by hand).
+	run := func(source string, at int) (nOps int, bad string) {
 		synctest.Test(t, func(t *testing.T) {
-			r := newRecvRig(nil, nil, nil)
-			defer r.close()
-			// a complete but unvalidated file, a validated file held for it, and a partial one
-			st := filepath.Join(r.dirs.Stage, "src")
-			now := time.Now()
-			mk := func(name, ext, data, prev string, ranges [][2]int64) {
-				vh.WriteFileAt(filepath.Join(st, name+ext), []byte(data), now)
-				cmp := &sts.Partial{Name: name, Prev: prev, Size: int64(len(data)), Hash: vh.MD5([]byte(data)), Source: "src"}
-				for _, rg := range ranges {
-					cmp.Parts = append(cmp.Parts, &sts.ByteRange{Beg: rg[0], End: rg[1]})
-				}
-				b, _ := json.Marshal(cmp)
-				vh.WriteFileAt(filepath.Join(st, name+".cmp"), b, now)
-			}
-			mk("a", ".part", "AAAABBBB", "", [][2]int64{{0, 4}, {4, 8}})
-			mk("b", ".wait", "CCCC", "a", [][2]int64{{0, 4}})
-			mk("c", ".full", "DDDDDD", "", [][2]int64{{0, 6}})
-			mk("d", ".part", "EEEE\x00\x00\x00\x00", "", [][2]int64{{0, 4}})
-			vos.FixTree(r.root)
-			gk := r.app.server.GateKeeperFactory("src")
-			r.app.server.VerifSwapGateKeepers(map[string]sts.GateKeeper{"src": gk}, nil)
-			var inRecover atomic.Bool
+			var r *recvRig
+			ready := make(chan bool)
 			var ops atomic.Int64
-			hdr := map[string]string{"X-STS-SrcName": "src"}
+			var probed atomic.Bool
+			hdr := map[string]string{"X-STS-SrcName": source}
 			ml, body := dataBody("e", "", "", "new data")
 			probes := []rawReq{
-				{Method: "POST", Path: "/validate?v=1", Headers: map[string]string{"X-STS-SrcName": "src", "Content-Type": "application/json"}, Body: `[{"n":"a","t":1293753600}]`},
+				{Method: "POST", Path: "/validate?v=1", Headers: map[string]string{"X-STS-SrcName": source, "Content-Type": "application/json"}, Body: `[{"n":"a","t":1293753600}]`},
 				{Method: "GET", Path: "/partials?v=1", Headers: hdr},
-				{Method: "PUT", Path: "/data?v=1", Headers: map[string]string{"X-STS-SrcName": "src", "X-STS-MetaLen": fmt.Sprint(ml), "X-STS-Sep": "/"}, Body: body},
-				{Method: "PUT", Path: "/data-recovery?v=1", Headers: map[string]string{"X-STS-SrcName": "src", "X-STS-Sep": "/"}, Body: body[:ml]},
+				{Method: "PUT", Path: "/data?v=1", Headers: map[string]string{"X-STS-SrcName": source, "X-STS-MetaLen": fmt.Sprint(ml), "X-STS-Sep": "/"}, Body: body},
+				{Method: "PUT", Path: "/data-recovery?v=1", Headers: map[string]string{"X-STS-SrcName": source, "X-STS-Sep": "/"}, Body: body[:ml]},
 				{Method: "GET", Path: "/static/x", Headers: hdr},
 			}
-			vos.Hook = func(op, p1, p2 string) error {
-				if !inRecover.Load() || !strings.HasPrefix(p1, r.root) {
-					return nil
-				}
-				// only steps taken by Recover itself or by the validators it waits for: those are
-				// certainly inside the recovery (the finalizer it feeds may outlive it)
-				if !onStack("stage.(*Stage).Recover") {
-					return nil
-				}
-				k := int(ops.Add(1))
-				if k != at {
-					return nil
-				}
-				vos.Hook = nil // the probes' own effects are not steps of the recovery
-				if gk.Ready() {
-					// (not probed over HTTP: a request that got through could block on the per-file
-					// lock this very step holds)
-					bad = fmt.Sprintf("recovery of source src is at its file-system step %d (%s %s) and the gate keeper already reports ready: requests are processed instead of being answered 503", k, op, strings.TrimPrefix(p1, r.root))
-					return nil
-				}
-				for _, q := range probes {
-					status, _, err := r.do(q)
-					if err != nil || status != 503 {
-						bad = fmt.Sprintf("recovery of source src is at its file-system step %d (%s %s): %s %s is answered %d (err %v), not 503 (unavailable)", k, op, strings.TrimPrefix(p1, r.root), q.Method, q.Path, status, err)
-						break
+			r = newRecvRig(nil, nil, func(root string, dirs *sts.ServerDirs) {
+				// a complete but unvalidated file, a validated file held for it, and a partial one
+				st := filepath.Join(dirs.Stage, strings.ReplaceAll(source, "/", "--"))
+				now := time.Now()
+				mk := func(name, ext, data, prev string, ranges [][2]int64) {
+					vh.WriteFileAt(filepath.Join(st, name+ext), []byte(data), now)
+					cmp := &sts.Partial{Name: name, Prev: prev, Size: int64(len(data)), Hash: vh.MD5([]byte(data)), Source: source}
+					for _, rg := range ranges {
+						cmp.Parts = append(cmp.Parts, &sts.ByteRange{Beg: rg[0], End: rg[1]})
 					}
+					b, _ := json.Marshal(cmp)
+					vh.WriteFileAt(filepath.Join(st, name+".cmp"), b, now)
 				}
-				return nil
+				mk("a", ".part", "AAAABBBB", "", [][2]int64{{0, 4}, {4, 8}})
+				mk("b", ".wait", "CCCC", "a", [][2]int64{{0, 4}})
+				mk("c", ".full", "DDDDDD", "", [][2]int64{{0, 6}})
+				mk("d", ".part", "EEEE\x00\x00\x00\x00", "", [][2]int64{{0, 4}})
+				vos.Hook = func(op, p1, p2 string) error {
+					if !strings.HasPrefix(p1, root) {
+						return nil
+					}
+					// only steps taken by Recover itself or by the validators it waits for: those are
+					// certainly inside the recovery (the finalizer it feeds may outlive it)
+					if !onStack("stage.(*Stage).Recover") {
+						return nil
+					}
+					k := int(ops.Add(1))
+					if k != at {
+						return nil
+					}
+					vos.Hook = nil // the probes' own effects are not steps of the recovery
+					<-ready      // the receiver is serving by now
+					probed.Store(true)
+					for _, q := range probes {
+						status, _, err := r.do(q)
+						if err != nil || status != 503 {
+							bad = fmt.Sprintf("recovery of source %s is at its file-system step %d (%s %s): %s %s is answered %d (err %v), not 503 (unavailable)", source, k, op, strings.TrimPrefix(p1, root), q.Method, q.Path, status, err)
+							break
+						}
+					}
+					return nil
+				}
+			})
+			defer r.close()
+			r.client.Timeout = 30 * time.Second // a request that got through may block on a lock the interrupted step holds
+			close(ready)
+			// recovery runs in the goroutine serverApp.init started; wait for it to finish
+			for i := 0; i < 600; i++ {
+				synctest.Wait()
+				allReady := true
+				for _, gk := range r.app.server.VerifGateKeepers() {
+					allReady = allReady && gk.Ready()
+				}
+				if allReady && (at == 0 || probed.Load() || i > 5) {
+					break
+				}
+				time.Sleep(time.Second)
 			}
-			done := make(chan bool)
-			go func() {
-				inRecover.Store(true)
-				gk.Recover()
-				inRecover.Store(false)
-				close(done)
-			}()
-			<-done
 			vos.Hook = nil
 			nOps = int(ops.Load())
 			synctest.Wait()
@@ -378,34 +382,43 @@ func TestC15Recovery(t *testing.T) {
 		return
 	}
 	var rc struct {
-		At int `json:"at"`
+		Source string `json:"source"`
+		At     int    `json:"at"`
 	}
 	if vh.ReplaySpec(&rc) {
-		if _, bad := run(rc.At); bad != "" {
+		if rc.Source == "" {
+			rc.Source = "src"
+		}
+		if _, bad := run(rc.Source, rc.At); bad != "" {
 			rep.Violate("", bad, rc)
 		}
 		rep.Executions = 1
 		return
 	}
-	total, _ := run(0)
-	rep.Executions++
-	for at := 1; at <= total; at++ {
-		if !vh.Mine(at) {
-			continue
-		}
-		_, bad := run(at)
+	total, n := 0, 0
+	for _, source := range []string{"src", "site/inst"} {
+		tot, _ := run(source, 0)
 		rep.Executions++
-		rep.States++
-		rep.Transitions += 5 // five probe requests
-		rep.Nontrivial++
-		rep.Sample(map[string]int{"recovery_step": at}, 3)
-		rep.Outcome("probed")
-		if bad != "" {
-			rep.Violate("", bad, map[string]int{"at": at})
+		total += tot
+		for at := 1; at <= tot; at++ {
+			n++
+			if !vh.Mine(n) {
+				continue
+			}
+			_, bad := run(source, at)
+			rep.Executions++
+			rep.States++
+			rep.Transitions += 5 // five probe requests
+			rep.Nontrivial++
+			rep.Sample(map[string]interface{}{"source": source, "recovery_step": at}, 3)
+			rep.Outcome("probed")
+			if bad != "" {
+				rep.Violate("", bad, map[string]interface{}{"source": source, "at": at})
+			}
 		}
 	}
 	rep.Count("file-system steps of the recovery", int64(total))
-	rep.Bound = "a stage directory holding a complete unvalidated .part, a validated .wait held for it, a .full and an incomplete .part; the real Stage.Recover() (as started by serverApp.init) is interrupted before each file-system mutation made by Recover itself and by the validators it waits for (renames of complete partials, validation renames) and a poll, partials, data, data-recovery and static request is issued through the real server at that instant: each must be answered 503"
+	rep.Bound = "for each of the source names src and site/inst (a name with a path separator, kept in the directory site--inst): a stage directory holding a complete unvalidated .part, a validated .wait held for it, a .full and an incomplete .part; the receiver is started on it, and the Stage.Recover() that serverApp.init itself starts is interrupted before each file-system mutation made by Recover itself and by the validators it waits for (renames of complete partials, validation renames) and a poll, partials, data, data-recovery and static request is issued through the real server at that instant: each must be answered 503"
 }
 
 // onStack reports whether a function whose name contains fn is on the calling goroutine's stack.
